@@ -24,6 +24,8 @@ KINDS = [
     ("possible bit shift underflow/overflow", "shift-overflow"),
     ("precondition not satisfied", "precondition"),
     ("postcondition not satisfied", "postcondition"),
+    ("unable to prove post-condition of closure", "postcondition"),
+    ("unable to prove precondition of closure", "precondition"),
     ("invariant not satisfied at end of loop body", "invariant"),
     ("invariant not satisfied before loop", "invariant"),
     ("loop invariant not satisfied", "invariant"),
